@@ -10,7 +10,7 @@ from concurrent.futures import ThreadPoolExecutor
 
 from . import build, core, ir
 from .build import AnalysisBroken
-from .core import DISCHARGED, VIOLATED, UNMODELLED
+from .core import DISCHARGED, VIOLATED, UNMODELLED, INHERITS
 
 FIXTURES = os.path.join(core.VERIF, "fixtures")
 
@@ -103,7 +103,7 @@ def analyse(prop, tier="quick", root=None, quiet=False):
     rule_results = {}
     cfg_infos = []
     broken = []
-    rank = {VIOLATED: 2, UNMODELLED: 1, DISCHARGED: 0}
+    rank = {VIOLATED: 3, INHERITS: 2, UNMODELLED: 1, DISCHARGED: 0}
     for cfg in configs:
         files, info = build.extract(cfg=cfg, root=root)
         prog = ir.Program.load(files)
